@@ -51,9 +51,15 @@ pub fn generate(seed: u64, thorough: bool) -> Library {
     };
     let with_dirs = swarm.chance(1, 3);
     let refs_ext = if swarm.chance(1, 4) { ".md" } else { "" }.to_string();
-    let keys = gen::key_pool(n, with_dirs);
+    let rich = n <= 40 && swarm.chance(1, 3);
+    let keys = if rich { gen::rich_key_pool(n, true, 1, &mut work) } else { gen::key_pool(n, with_dirs) };
     let mut targets = keys.clone();
     targets.push("zz".into());
+    if rich {
+        // bare names that are not keys themselves but are the file name of notes in two directories
+        targets.push("readme".into());
+        targets.push("idea".into());
+    }
     let cfg = GenCfg { keys: keys.clone(), targets, max_blocks: swarm.range(1, 6), max_depth: 2 };
     let mut docs: BTreeMap<String, Doc> = BTreeMap::new();
     for k in &keys {
